@@ -24,6 +24,7 @@ type Env struct {
 	st          *State // state in which heap reads happen
 	old         *State // state for old(...)
 	iter        *State // state for iter(...)
+	pre         *State // state for pre(...): just before the loop was entered
 	names       map[string]TV
 	locals      bool
 	fn          *ssa.Function
@@ -125,6 +126,13 @@ func (x *Exec) eval(e *CE, env *Env) TV {
 		n := *env
 		n.st = env.old
 		n.locals = false
+		return x.eval(e.Args[0], &n)
+	case "pre":
+		if env.pre == nil {
+			panic(unsupported("pre() is only available in loop invariants"))
+		}
+		n := *env
+		n.st = env.pre
 		return x.eval(e.Args[0], &n)
 	case "iter":
 		if env.iter == nil {
@@ -339,6 +347,12 @@ func (x *Exec) localByName(name string, env *Env) (TV, bool) {
 		return TV{}, false
 	}
 	pick := cands[0]
+	for _, cnd := range cands {
+		if _, ok := env.st.cells[cnd]; ok || cnd.Heap {
+			pick = cnd
+			break
+		}
+	}
 	if len(cands) > 1 && env.pos.IsValid() && env.pkg != nil {
 		if sc := env.pkg.Scope().Innermost(env.pos); sc != nil {
 			if _, obj := sc.LookupParent(name, env.pos); obj != nil {
@@ -657,7 +671,7 @@ func (x *Exec) evalQuant(e *CE, env *Env) TV {
 	if e.Op == "forall" {
 		return TV{Sc{c.Forall(vars, body, pats)}, types.Typ[types.Bool]}
 	}
-	return TV{Sc{c.Exists(vars, body)}, types.Typ[types.Bool]}
+	return TV{Sc{c.Exists(vars, body, pats)}, types.Typ[types.Bool]}
 }
 
 func (x *Exec) flattenAny(tv TV) []*Term {
